@@ -50,6 +50,7 @@ def run(ctx):
         ctx.ob("H3.DROP-PERSISTS", what, bool(hit), "Drop calls %s" % what if hit else "Drop of the shared database does not call %s" % what, d.loc())
     common.truncate_after_sync(ctx, "H4.CHECKPOINT-ORDER", c01.R6_TOLERATED)
     checkpoint_shortcut(ctx)
+    header_page_logging_all_or_none(ctx)
 
 
 def checkpoint_shortcut(ctx):
@@ -75,3 +76,34 @@ def checkpoint_shortcut(ctx):
            "with a non-empty log every success path truncates it (accepted shortcuts: no WAL, no file manager, tracker empty, log empty)" if ok else
            "checkpoint can return Ok without truncating a non-empty log through a shortcut that is not one of the accepted guards (%s): the "
            "stale page images are replayed over newer unlogged writes at the next open" % (describe_path(f, esc[0]) if esc else "no truncate site"), f.loc())
+
+
+def header_page_logging_all_or_none(ctx):
+    """H7 HEADER-LOGGING-ALL-OR-NONE: the table header (page 0: row count, AUTO_INCREMENT, root page, rightmost hint) is written
+    directly through the mmap by every DML path and is, by design, not dirty-tracked.  Checkpoint and reopen copy logged page images
+    over the table file, so page 0 may be logged either by every function that writes a header field or by none: a page-0 image logged
+    by one path only is stale by the next header update and is then replayed over the newer header."""
+    from paths import const_value
+    m = ctx.m
+    markers = set()
+    for f in m.fns.values():
+        for c in f.calls:
+            if c.name.endswith("ShardedDirtyTracker::mark_dirty") and len(c.args) >= 3:
+                v = const_value(f, c.args[2])
+                if v == 0:
+                    markers.add(f.id if f.kind != "closure" else f.id.rsplit("::{closure", 1)[0])
+    writers = set()
+    for f in m.fns.values():
+        if any(c.name.startswith("storage::headers::TableFileHeader::set_") for c in f.calls):
+            host = f.id if f.kind != "closure" else f.id.rsplit("::{closure", 1)[0]
+            if host.startswith("database::"):
+                writers.add(host)
+    ctx.stat("H7.header_writer_functions", len(writers))
+    unlogged = sorted(writers - markers)
+    ok = not markers or not unlogged
+    ctx.ob("H7.HEADER-LOGGING-ALL-OR-NONE", "table header page", ok and len(writers) >= 5,
+           "page 0 is logged by no header writer (%d header-writing functions)" % len(writers) if not markers else "every header writer logs page 0",
+           ) if ok else ctx.ob("H7.HEADER-LOGGING-ALL-OR-NONE", "table header page", False,
+           "%s mark(s) page 0 dirty for the WAL while %d other function(s) (e.g. %s) write header fields without doing so: the logged header image goes "
+           "stale and checkpoint / reopen replay it over the current row count, AUTO_INCREMENT value and root page"
+           % (sorted(x.rsplit("::", 1)[-1] for x in markers), len(unlogged), unlogged[0].rsplit("::", 1)[-1]), "src/database/dml/insert.rs")
